@@ -122,6 +122,19 @@ pub fn eval_line(l: &str) -> String {
     }
 }
 
+/// Stream `evalsep`: `<dot|comma> <expression>` evaluated in a fresh context with that decimal-separator style.
+pub fn evalsep_line(l: &str) -> String {
+    let Some((style, expr)) = l.split_once(' ') else { return "bad-op".into() };
+    let mut c = ctx();
+    c.set_decimal_separator_style(if style == "comma" { fend_core::DecimalSeparatorStyle::Comma } else { fend_core::DecimalSeparatorStyle::Dot });
+    let int = Counting::never();
+    match guarded(|| fend_core::evaluate_with_interrupt(expr, &mut c, &int)) {
+        Ok(Ok(v)) => format!("ok {}", v.get_main_result().replace('\n', "\\n")),
+        Ok(Err(e)) => format!("err {}", e.replace('\n', "\\n")),
+        Err(p) => format!("panic {}", p.replace('\n', "\\n")),
+    }
+}
+
 /// Stream `evalctx`: statements separated by ` ;; ` evaluated left to right in ONE context;
 /// prints the results joined by ` ;; `.
 pub fn evalctx_line(l: &str) -> String {
